@@ -5,6 +5,7 @@ import (
 	"fmt"
 	"mime/multipart"
 	"net/http"
+	"os"
 	"strconv"
 	"strings"
 	"time"
@@ -234,6 +235,71 @@ func (f *fuzzCtx) request() (Req, string) {
 
 func runC09(tier string, seed uint64) {
 	rng := NewRng(seed)
+	// no request creates an object that no request can address (the empty key): the bucket must stay
+	// emptiable and deletable
+	for _, kind := range allKinds {
+		if isSingle(kind) {
+			continue
+		}
+		s := newSess("c09", kind, SessOpts{})
+		emit("c09", "NOMODEL")
+		s.MkBucket("bke")
+		if id := s.Initiate("bke", "", nil); id != "" {
+			et := s.UploadPart("bke", "", id, 1, []byte("x"))
+			s.Complete("bke", "", id, []CPart{{1, et}})
+		}
+		s.PostForm("bke", "", []byte("form upload without a key"), nil)
+		lr := s.List(ListReq{Bucket: "bke", MaxKeys: -1})
+		for _, k := range lr.Keys {
+			if k != "" {
+				s.Delete("bke", k)
+			}
+		}
+		r := s.RmBucket("bke")
+		msg := fmt.Sprintf("%s: after an initiate / complete and a form upload with an empty key, the bucket lists %q and DELETE bucket answers %d", kind, lr.Keys, r.Status)
+		if r.Status == 204 {
+			emit("c09", "GOOD", hs(msg))
+		} else {
+			emit("c09", "BAD", hs(msg))
+		}
+		nontrivial(kind + "|empty-key")
+		s.end()
+	}
+	// resources: a long run of ordinary requests must not use up file descriptors
+	for _, kind := range []string{"fsdir", "sfsdir", "bolt"} {
+		s := newSess("c09", kind, SessOpts{})
+		emit("c09", "NOMODEL")
+		b := singleBucketName
+		if !isSingle(kind) {
+			s.MkBucket(b)
+		}
+		count := func() int {
+			es, _ := os.ReadDir("/proc/self/fd")
+			return len(es)
+		}
+		s.Put(b, "leak/k", []byte("x"), []KV{{"X-Amz-Meta-A", "1"}})
+		before := count()
+		for i := 0; i < 120; i++ {
+			do(s.h, Req{Method: "PUT", Path: "/" + b + "/leak/k", Body: []byte("overwrite"), Header: [][2]string{{"X-Amz-Meta-A", strconv.Itoa(i)}}})
+			do(s.h, Req{Method: "GET", Path: "/" + b + "/leak/k"})
+			do(s.h, Req{Method: "HEAD", Path: "/" + b + "/leak/k"})
+			do(s.h, Req{Method: "GET", Path: "/" + b + "?prefix=leak"})
+			do(s.h, Req{Method: "PUT", Path: "/" + b + "/leak/copy", Body: []byte{}, Header: [][2]string{{"X-Amz-Copy-Source", "/" + b + "/leak/k"}}})
+		}
+		after := count()
+		msg := fmt.Sprintf("%s: open file descriptors before and after 600 put/get/head/list/copy requests on one key: %d -> %d", kind, before, after)
+		if after-before <= 10 {
+			emit("c09", "GOOD", hs(msg))
+		} else {
+			emit("c09", "BAD", hs(msg))
+		}
+		nontrivial(kind + "|descriptor-leak")
+		s.end()
+	}
+	// a request whose body trickles in must not hold up the requests of others (multipart included)
+	for _, kind := range allKinds {
+		mpSlowPart("c09", kind)
+	}
 	nreq := 350
 	if tier == "thorough" {
 		nreq = 20000
